@@ -12,7 +12,9 @@ import (
 
 // Universe of name components (DESIGN §3.8): SQL wildcards, ASCII-case variants,
 // prefix-related siblings, dots, spaces, non-ASCII, pipeline suffixes, one long name.
-var Universe = []string{"a", "b", "ab", "a_", "a%", "A", ".x", "x.y", "a b", "é", "日本", "x.gz", "x.zst.age", "c", "d", strings.Repeat("L", 120)}
+var Universe = []string{"a", "b", "ab", "a_", "a%", "A", ".x", "x.y", "a b", "é", "日本", "x.gz", "x.zst.age", "c", "d", strings.Repeat("L", 120),
+	// pattern metacharacters of GLOB / LIKE ESCAPE / regular expressions, and quotes
+	"a[b]", "a?", "a*", "[a-c]", "a\\b", "it's", "q\"q", "^a$", "a+", "{a,b}"}
 
 var Compressions = []string{"", "gzip", "parallelgzip", "lz4", "zstandard", "brotli", "bzip2", "parallelbzip2"}
 var Levels = []string{"fastest", "balanced", "smallest"}
